@@ -29,7 +29,8 @@ RULE = (
     "sys.exit with a status 0..255 / a message / None, raise of a builtin or program-defined exception, SystemExit, KeyboardInterrupt, a failing assert, "
     "an exit from inside a function, or a reader / compiler error at the end of the text; some have unreachable prints after the terminator. ARGS are 0..6 "
     "strings: Hy/Python option look-alikes (-c -m -i -h --help -v --version -B -E -u --spy --repl-output-fn[=x] -- - -cfoo -mfoo -x --bogus ...), empty "
-    "string, whitespace/quotes/shell characters, arbitrary Unicode text, plain words. FILE is given as p.hy, ./p.hy, sub/p.hy, sub/../p.hy, an absolute "
+    "string, whitespace/quotes/shell characters, arbitrary Unicode text, plain words; in addition every look-alike and the empty string is enumerated once per run "
+    "as the first ARG of a fixed small program (28 cases, the other dimensions rotating). FILE is given as p.hy, ./p.hy, sub/p.hy, sub/../p.hy, an absolute "
     "path, an extensionless name, a name with a space / non-ASCII letters, or a directory holding __main__.hy; MODULE is a plain name, a hyphenated name "
     "(docs/cli.rst: mangled), pkg.mod, a hyphenated pkg.mod, or a package with __main__.hy. Each mode runs as a subprocess of the tree's hy entry point in "
     "a fresh scratch directory. Oracle: (absolute, per mode) every reported sys.argv[1:] == ARGS and sys.argv[0] == what CPython documents for the "
@@ -416,8 +417,8 @@ def normal(case):
     case.setdefault("runs", True)
     if case.get("ref") is not None and case["ref"] not in MODES:
         raise ValueError("malformed case")
-    if case["runs"] and MARK not in case["src"]:
-        raise ValueError("malformed case: a program that is expected to run must contain the argv report")
+    if case["runs"] and not (MARK in case["src"] and case["src"].startswith("(import sys json)")):
+        raise ValueError("malformed case: a program that is expected to run must contain the argv report and its imports")
     if (
         case["file"] not in [f for _, f in FILES]
         or case["module"] not in [m for _, m in MODULES]
@@ -477,8 +478,8 @@ def shrink(case, same, budget):
     i = 0
     while i < len(lines) and used < budget:
         cand = lines[:i] + lines[i + 1 :]
-        if MARK in lines[i] and MARK not in "\n".join(cand):
-            i += 1
+        if (MARK in lines[i] and MARK not in "\n".join(cand)) or lines[i].startswith("(import sys json)"):
+            i += 1  # the report and its imports stay: the reduced text must remain a program that reports on a healthy tree
         elif attempt(dict(best, src="\n".join(cand))):
             lines = cand
         else:
@@ -506,7 +507,9 @@ def strategies():
         st.sampled_from(PLAIN), st.sampled_from(ODD),
         st.text(st.characters(blacklist_categories=("Cs",), blacklist_characters="\0", max_codepoint=0x1FFFF), min_size=0, max_size=6),
     )
-    args = st.lists(arg, min_size=0, max_size=6)
+    key = st.sampled_from(["--", "-", "-c", "-m", "-i", "-h", "--spy", "-E", "-B", ""])
+    arg = st.one_of(arg, arg, arg, key)
+    args = st.sampled_from([0, 1, 1, 2, 2, 3, 3, 4, 5, 6]).flatmap(lambda n: st.lists(arg, min_size=n, max_size=n))
 
     @st.composite
     def statement(draw, n):
@@ -633,11 +636,28 @@ def strategies():
     return case()
 
 
+def enumerated():
+    """Every option look-alike (and the empty string) as the FIRST program argument, once per run, in every mode: the finite part of the domain.
+    The other dimensions rotate with the index."""
+    report = "(print %s (json.dumps sys.argv))" % hystr(MARK)
+    firsts = OPTION_LIKE + [""]
+    fs, ms = FILES[1:], MODULES[1:]
+    out = []
+    for i, first in enumerate(firsts):
+        args = [first] + ([OPTION_LIKE[(7 * i + 3) % len(OPTION_LIKE)]] if i % 3 == 0 else []) + (["x"] if i % 2 else [])
+        src = "(import sys json)\n(print \"start\" __name__)\n%s\n(print (cut sys.argv 1 None))\n(sys.exit %d)\n(print \"unreachable\")\n" % (report, (0, 3, 42)[i % 3])
+        f, m = fs[i % len(fs)], ms[i % len(ms)]
+        case = dict(src=src, args=args, pre=list(PRE[3:][i % len(PRE[3:])]), spell=("sep", "att", "cluster")[i % 3], file=f[1], module=m[1], runs=True)
+        out.append((case, dict(stmts=["cut", "name"], term="exit-status", file=f[0], module=m[0], enumerated=True)))
+    return out
+
+
 def classes(case, meta):
     cls = ["file:" + meta["file"], "module:" + meta["module"], "end:" + meta["term"]]
     cls += ["stmt:" + s for s in meta["stmts"]]
     n = len(case["args"])
     cls.append("nargs:" + ("0" if n == 0 else "1-2" if n <= 2 else "3-6"))
+    cls.append("enumerated-first-argument" if meta.get("enumerated") else "generated")
     cats = set(arg_category(a) for a in case["args"])
     cls += ["arg:" + c for c in sorted(cats)]
     for a in sorted(set(case["args"]) & {"-c", "-m", "-i", "-h", "--help", "--spy", "-v", "--version", "-B", "-E", "-u"}):
@@ -700,8 +720,8 @@ def validate_rule_against_cpython(d, pool):
 
 
 def shard(ctx):
-    cases = []
-    ctx.hyp(strategies(), cases.append, ctx.per_shard(64, 1600), "cases")
+    cases = [c for j, c in enumerate(enumerated()) if j % ctx.n == ctx.k]
+    ctx.hyp(strategies(), cases.append, ctx.per_shard(40, 1600), "cases")
     root = scratch_root("s%d" % ctx.k)
     try:
         with ThreadPoolExecutor(4) as pool:
